@@ -272,14 +272,19 @@ static void run_script(int from, int to)
 	}
 }
 
-static int decoder_new(struct vf_rng *r, int late_handlers)
+/* second handler registered at the start of a decoder life: drawn once per case so that every life
+   of the heap job does exactly the same */
+static int reg_second, reg_mask;
+static void draw_handlers(struct vf_rng *r) { reg_second = vf_chance(r, 1, 2); reg_mask = (int)vf_below(r, 12); }
+
+static int decoder_new(int late_handlers)
 {
 	vf_phase("vbi_decoder_new");
 	g_vbi = vbi_decoder_new();
 	if (!g_vbi) { vf_fail("harness:alloc", "vbi_decoder_new failed"); return 0; }
 	if (!late_handlers) {
 		do_register(0, 0);
-		if (vf_chance(r, 1, 2)) do_register(2, (int)vf_below(r, 12));
+		if (reg_second) do_register(2, reg_mask);
 	}
 	return 1;
 }
@@ -303,6 +308,7 @@ static int case_fuzz(struct vf_rng *r)
 	static const int prof[] = { 0, 0, 0, 1, 1, 2, 2, 3, 3, 3, 4, 5 };
 	profile = prof[vf_below(r, sizeof prof / sizeof prof[0])];
 	setup_profile(r, profile);
+	odd_sub_rate = 12; short_countdown = 0;
 	station_build(r);
 	nops = vf_tier ? vf_range(r, 200, 5000) : vf_range(r, 200, 1200);
 	if (vf_chance(r, 1, 3)) nops = vf_range(r, 100, 300);
@@ -320,7 +326,8 @@ static int case_fuzz(struct vf_rng *r)
 
 	exec_reset_state();
 	vf_rng_seed(&xr, vf_seed ^ 0xC01, (uint64_t)vf_case);
-	if (!decoder_new(r, late)) return 0;
+	draw_handlers(r);
+	if (!decoder_new(late)) return 0;
 	run_script(0, n_ops);
 	decoder_end();
 	cnt[C_DECODER_CYCLES]++;
@@ -352,7 +359,11 @@ static const struct { const char *name; unsigned feat; unsigned rd; int ttx, cc,
 	{ "export",  F_SUB | F_FLOF | F_X26 | F_X28, RD_FETCH | RD_NAV | RD_EXPORT | RD_DRAW | RD_LINKS, 1, 0, 0, 0, 0 },
 	{ "mixed",   0x1FFF, RD_FETCH | RD_NAV | RD_SEARCH | RD_EXPORT | RD_DRAW | RD_NESTED | RD_MISC | RD_LINKS | RD_HELD, 1, 1, 1, 1, 1 },
 	{ "chsw",    F_SUB | F_MOT | F_POP | F_DRCS | F_TOP | F_830 | F_X26, RD_FETCH | RD_NAV | RD_CHSW | RD_MISC | RD_NESTED, 1, 1, 1, 0, 1 },
+	/* named quirk Q-oddsub: pages that have subpages are also sent with clock-style / out-of-range subcodes
+	   (single-version keying in the cache); every other carousel family sends regular subcodes only */
+	{ "oddsub",  F_SUB | F_FLOF | F_X26, RD_FETCH | RD_NAV | RD_LINKS | RD_MISC, 1, 0, 0, 0, 0 },
 };
+#define FAM_ODDSUB 10
 #define NFAM ((int)(sizeof fam / sizeof fam[0]))
 
 static void setup_family(struct vf_rng *r, int f, int hostile)
@@ -365,15 +376,45 @@ static void setup_family(struct vf_rng *r, int f, int hostile)
 	if (f == 9) t_irregular = 60;
 }
 
+/* glibc loads a gconv module on the first iconv_open() of a character set and unloads it again
+ * some iconv_close() calls later (gconv_dl.c, TRIES_BEFORE_UNLOAD), so the number of live blocks
+ * would wander from one decoder life to the next for reasons that have nothing to do with the
+ * library.  One descriptor per character set the harness ever asks for stays open for the life of
+ * the process; the modules and the derivation cache are then allocated before the first baseline. */
+#include <iconv.h>
+#include <time.h>
+static void pin_iconv(void)
+{
+	/* what the harness asks for (exercise_page, get_export; lower case as exp-html spells it) and what
+	   exp-html picks from the page's character set */
+	static const char *const cs[] = { "UTF-8", "ISO-8859-1", "iso-8859-1", "ASCII", "UCS-2", "UTF-16", "EUC-JP", "ANSI_X3.4-1968", "US-ASCII", "UCS-4", "WCHAR_T",
+		"ISO-8859-2", "iso-8859-2", "ISO-8859-4", "ISO-8859-5", "ISO-8859-7", "ISO-8859-8", "ISO-8859-9", "KOI8-R", "KOI8-U",
+		"iso-8859-4", "iso-8859-5", "iso-8859-6", "ISO-8859-6", "iso-8859-7", "iso-8859-8", "iso-8859-9", "koi8-r", "koi8-u", "utf-8", "iso-10646", "ISO-10646",
+		/* names that do not exist: the failed lookup is cached by glibc, too */
+		"nope", "", "#", " ", "32", "0x2A", "no-such-charset", "999999999999", "0x", "\xE4" };
+	static int done;
+	unsigned i;
+	if (done) return;
+	done = 1;
+	tzset();                                   /* mktime() in the trigger parser reads the time zone file once */
+	for (i = 0; i < sizeof cs / sizeof cs[0]; i++) {
+		(void)iconv_open(cs[i], "UCS-2");
+		(void)iconv_open("UCS-2", cs[i]);
+	}
+}
+
 static int case_heap(struct vf_rng *r, long idx)
 {
-	int f = (int)(idx % NFAM), carousel = (int)((idx / NFAM) & 1), hostile, K = 6, round, c;
-	long before, after, lvl[8], blk[8];
+	int f = (int)(idx % NFAM), carousel = (int)((idx / NFAM) & 1), hostile, K = 10, round, c;
+	long before, after, lvl[10], blk[10];
 	char key[96];
 	if (!vf_heap_available()) { vf_fail("harness:C01:no-heap-accounting", "mode heap needs the plain flavour with \"heap\": True"); return 0; }
+	pin_iconv();
 	hostile = !carousel && vf_chance(r, 1, 2);
 	setup_family(r, f, hostile);
 	if (carousel) { rd &= ~(unsigned)RD_CHSW; t_irregular = 0; }
+	odd_sub_rate = (f == FAM_ODDSUB) ? 3 : carousel ? 0 : 12;
+	short_countdown = carousel;
 	station_build(r);
 	cur_t = 1000.0;
 	n_mutated = 0;
@@ -392,35 +433,49 @@ static int case_heap(struct vf_rng *r, long idx)
 		gen_script(r, vf_tier ? vf_range(r, 200, 1500) : vf_range(r, 100, 500), 25);
 		gen_flush(r);
 	}
+	draw_handlers(r);
 	snprintf(desc, sizeof desc, "family=%s %s hostile=%d feat=0x%04x mut=%u pages=%d ops=%d lines=%d", fam[f].name, carousel ? "carousel" : "cycles", hostile, feat, mut_rate, st.n, n_ops, n_pool);
 	vf_sample("%s", desc);
 	cnt[C_MUTATED] += n_mutated;
 
 	if (!carousel) {
-		/* warm-up cycle (one-time allocations of libc, iconv, gettext, libpng happen here), then measured cycles */
+		/* Three identical decoder lives (same script, same read-side choices).  The first is the
+		   warm-up: one-time allocations of libc, iconv (gconv modules are loaded on the first use
+		   of *each* character set), gettext and libpng happen there, which is only true if the
+		   measured lives do exactly what the warm-up did. */
 		for (c = 0; c < 3; c++) {
 			exec_reset_state();
-			vf_rng_seed(&xr, vf_seed ^ 0xC01, (uint64_t)vf_case * 8 + (uint64_t)c);
+			vf_rng_seed(&xr, vf_seed ^ 0xC01, (uint64_t)vf_case);
 			before = vf_heap_live_blocks();
-			if (!decoder_new(r, 0)) return 0;
+			if (!decoder_new(0)) return 0;
 			run_script(0, n_ops);
 			decoder_end();
 			after = vf_heap_live_blocks();
 			cnt[C_DECODER_CYCLES]++;
 			if (c > 0 && after != before) {
 				snprintf(key, sizeof key, "heap:C01:not-released:%s", fam[f].name);
-				vf_fail(key, "cycle %d: %ld blocks live before vbi_decoder_new, %ld after vbi_decoder_delete (%+ld); %s", c, before, after, after - before, desc);
+				vf_fail(key, "decoder life %d: %ld blocks live before vbi_decoder_new, %ld after vbi_decoder_delete (%+ld); %s", c + 1, before, after, after - before, desc);
 				break;
 			}
 		}
 	} else {
 		int nframes = 0, i;
+		long e_blk = 0, e_lvl = 0, l_blk = 0, l_lvl = 0;
 		double period;
+		char hist[400];
+		size_t hn = 0;
 		for (i = 0; i < n_ops; i++) if (ops[i].kind == OP_FRAME) nframes++;
 		period = (nframes + 1) * frame_dt;
+		/* warm-up life: one round, so that one-time allocations do not count as "not released" */
+		exec_reset_state();
+		vf_rng_seed(&xr, vf_seed ^ 0xC01, (uint64_t)vf_case);
+		if (!decoder_new(0)) return 0;
+		run_script(0, n_ops);
+		decoder_end();
+		cnt[C_DECODER_CYCLES]++;
 		exec_reset_state();
 		before = vf_heap_live_blocks();
-		if (!decoder_new(r, 0)) return 0;
+		if (!decoder_new(0)) return 0;
 		for (round = 0; round < K; round++) {
 			vf_rng_seed(&xr, vf_seed ^ 0xC01, (uint64_t)vf_case);
 			/* same transmission again, time keeps running */
@@ -431,13 +486,36 @@ static int case_heap(struct vf_rng *r, long idx)
 			lvl[round] = vf_heap_live_bytes(); blk[round] = vf_heap_live_blocks();
 			cnt[C_CAROUSEL_ROUNDS]++;
 		}
-		for (round = 2; round < K; round++)
-			if (lvl[round] != lvl[1] || blk[round] != blk[1]) {
-				snprintf(key, sizeof key, "heap:C01:growth:%s", fam[f].name);
-				vf_fail(key, "identical carousel sent %d times: live bytes after rounds 1..%d = %ld %ld %ld %ld %ld %ld, blocks %ld %ld %ld %ld %ld %ld (rounds 3.. must equal round 2); %s",
-					K, K, lvl[0], lvl[1], lvl[2], lvl[3], lvl[4], lvl[5], blk[0], blk[1], blk[2], blk[3], blk[4], blk[5], desc);
-				break;
+		/* Growth = what is taken per retransmission and never given back.  Round 1 is the cold
+		   start.  State that depends on the running time (deferred triggers waiting for their
+		   fire time, the caption roll, a buffer that is enlarged once) may differ from round to
+		   round, or step up once, but a leak per retransmission lifts every later window above
+		   the one before it: with A = rounds 2-4, B = rounds 5-7, C = rounds 8-10 the verdict is
+		   min(B) > max(A) and min(C) > max(B), for live blocks, or for live bytes with a margin
+		   for the allocator's rounding of block sizes. */
+		{
+			long mn[3][2], mx[3][2];
+			int w;
+			for (w = 0; w < 3; w++) {
+				mn[w][0] = mx[w][0] = blk[1 + 3 * w]; mn[w][1] = mx[w][1] = lvl[1 + 3 * w];
+				for (round = 1 + 3 * w; round < 4 + 3 * w; round++) {
+					if (blk[round] < mn[w][0]) mn[w][0] = blk[round];
+					if (blk[round] > mx[w][0]) mx[w][0] = blk[round];
+					if (lvl[round] < mn[w][1]) mn[w][1] = lvl[round];
+					if (lvl[round] > mx[w][1]) mx[w][1] = lvl[round];
+				}
 			}
+			e_blk = (mn[1][0] > mx[0][0] && mn[2][0] > mx[1][0]);
+			e_lvl = (mn[1][1] > mx[0][1] + 256 && mn[2][1] > mx[1][1] + 256);
+			l_blk = mx[0][0]; l_lvl = mx[0][1];
+		}
+		if (e_blk || e_lvl) {
+			for (round = 0; round < K && hn < sizeof hist - 40; round++)
+				hn += (size_t)snprintf(hist + hn, sizeof hist - hn, " %ld/%ld", lvl[round], blk[round]);
+			snprintf(key, sizeof key, "heap:C01:growth:%s", fam[f].name);
+			vf_fail(key, "identical carousel sent %d times to one decoder: live bytes/blocks after each round =%s; rounds 5-7 lie above the maximum of rounds 2-4 (%ld bytes / %ld blocks) and rounds 8-10 above rounds 5-7: something is taken per retransmission and not given back; %s",
+				K, hist, l_lvl, l_blk, desc);
+		}
 		decoder_end();
 		after = vf_heap_live_blocks();
 		cnt[C_DECODER_CYCLES]++;
@@ -459,6 +537,7 @@ static int case_heap(struct vf_rng *r, long idx)
 static int run_case(struct vf_rng *r, long idx)
 {
 	memset(cnt, 0, sizeof cnt);
+	if (vf_verbose) setvbuf(stdout, NULL, _IONBF, 0);     /* keep the op log of a replay that crashes or hangs */
 	if (0 == strcmp(vf_mode, "heap")) return case_heap(r, idx);
 	return case_fuzz(r);
 }
